@@ -206,40 +206,6 @@ static unsigned int safec_atoi(const char **str) {
     return i;
 }
 
-// output the specified string in reverse, taking care of any zero-padding
-static size_t safec_out_rev(out_fct_type out, char *buffer, size_t idx,
-                            size_t maxlen, const char *buf, size_t len,
-                            unsigned int width, unsigned int flags) {
-    const size_t start_idx = idx;
-
-    // pad spaces up to given width
-    if (!(flags & FLAGS_LEFT) && !(flags & FLAGS_ZEROPAD)) {
-        for (size_t i = len; i < width; i++) {
-            int rc = out(' ', buffer, idx++, maxlen);
-            if (unlikely(rc < 0))
-                return rc;
-        }
-    }
-
-    // reverse string
-    while (len) {
-        int rc = out(buf[--len], buffer, idx++, maxlen);
-        if (unlikely(rc < 0))
-            return rc;
-    }
-
-    // append pad spaces up to given width
-    if (flags & FLAGS_LEFT) {
-        while (idx - start_idx < width) {
-            int rc = out(' ', buffer, idx++, maxlen);
-            if (unlikely(rc < 0))
-                return rc;
-        }
-    }
-
-    return idx;
-}
-
 // internal itoa format
 // buf holds the len digits of the value in reverse order. Sign, base prefix
 // and all padding are written directly, so that neither the precision nor the
@@ -392,493 +358,94 @@ static size_t safec_ntoa_long_long(out_fct_type out, const char *funcname,
 #endif // PRINTF_SUPPORT_LONG_LONG
 
 #ifdef PRINTF_SUPPORT_FLOAT
-
-#ifdef PRINTF_SUPPORT_EXPONENTIAL
-// forward declaration so that safec_ftoa can switch to exp notation for values
-// > PRINTF_MAX_FLOAT
-static size_t safec_etoa(out_fct_type out, const char *funcname, char *buffer,
-                         size_t idx, size_t maxlen, double value,
-                         unsigned int prec, unsigned int width,
-                         unsigned int flags);
-#ifdef PRINTF_SUPPORT_LONG_DOUBLE
-static size_t safec_etoa_long(out_fct_type out, const char *funcname,
+// Floating-point conversions (f F e E g G a A, also with L) are formatted by
+// the C library. The directive is rebuilt from the parsed flags, with width
+// and precision passed as arguments, and the result is sized first, so that it
+// is complete for any precision.
+static size_t safec_ftoa_libc(out_fct_type out, const char *funcname,
                               char *buffer, size_t idx, size_t maxlen,
-                              long double value, unsigned int prec,
-                              unsigned int width, unsigned int flags,
-                              const char *format);
-static size_t safec_ftoa_long(out_fct_type out, const char *funcname,
-                              char *buffer, size_t idx, size_t maxlen,
-                              long double value, unsigned int prec,
-                              unsigned int width, unsigned int flags,
-                              const char *format);
-#endif // PRINTF_SUPPORT_LONG_DOUBLE
-#endif // PRINTF_SUPPORT_EXPONENTIAL
+                              long double value, bool is_long, char conv,
+                              unsigned int prec, unsigned int width,
+                              unsigned int flags) {
+    char fmt[16];
+    char stackbuf[128];
+    char *buf = stackbuf;
+    char *p = fmt;
+    int len, i;
 
-// internal ftoa for fixed decimal floating point
-static size_t safec_ftoa(out_fct_type out, const char *funcname, char *buffer,
-                         size_t idx, size_t maxlen, double value,
-                         unsigned int prec, unsigned int width,
-                         unsigned int flags) {
-    char buf[PRINTF_FTOA_BUFFER_SIZE];
-    size_t len = 0U, off = 0U;
-    double tmp;
-    double diff = 0.0;
-    unsigned long frac;
-    int whole;
-    bool negative;
-
-    // powers of 10
-    static const double pow10[] = {1,         10,        100,     1000,
-                                   10000,     100000,    1000000, 10000000,
-                                   100000000, 1000000000};
-    const unsigned maxprec = 9U;
-
-    // test for special values
-    if (value != value)
-        return safec_out_rev(out, buffer, idx, maxlen,
-                             (flags & FLAGS_UPPERCASE) ? "NAN" : "nan", 3,
-                             width, flags);
-    if (isinf(value)) {
-        if (value < 0)
-            // reverse of -inf
-            return safec_out_rev(out, buffer, idx, maxlen,
-                                 (flags & FLAGS_UPPERCASE) ? "FNI-" : "fni-", 4,
-                                 width, flags);
-        else
-            // reverse of inf
-            return safec_out_rev(out, buffer, idx, maxlen,
-                                 (flags & FLAGS_PLUS)
-                                     ? (flags & FLAGS_UPPERCASE) ? "FNI+"
-                                                                 : "fni+"
-                                 : (flags & FLAGS_UPPERCASE) ? "FNI"
-                                                             : "fni",
-                                 (flags & FLAGS_PLUS) ? 4 : 3, width, flags);
-    }
-    // test for very large values
-    // standard printf behavior is to print EVERY whole number digit -- which
-    // could be 100s of characters overflowing your buffers == bad
-    if ((value > PRINTF_MAX_FLOAT) || (value < -PRINTF_MAX_FLOAT)) {
-#ifdef PRINTF_SUPPORT_EXPONENTIAL
-#ifdef PRINTF_SUPPORT_LONG_DOUBLE
-        // TODO Is %le good?
-        return safec_etoa_long(out, funcname, buffer, idx, maxlen,
-                               (long double)value, prec, width, flags, "%le");
-#else
-        return safec_etoa(out, funcname, buffer, idx, maxlen, value, prec,
-                          width, flags);
-#endif // PRINTF_SUPPORT_LONG_DOUBLE
-#else
-        return 0U;
-#endif // PRINTF_SUPPORT_EXPONENTIAL
+    if (width > 2147483614 || prec > 2147483614) {
+        char msg[80];
+        snprintf(msg, sizeof msg, "%s: width exceeds max", funcname);
+        invoke_safe_str_constraint_handler(msg, buffer, ESLEMAX);
+        return -ESLEMAX;
     }
 
-    // test for negative
-    negative = false;
-    if (value < 0) {
-        negative = true;
-        value = 0 - value;
-    }
-
-    // set default precision, if not set explicitly
-    if (!(flags & FLAGS_PRECISION)) {
-        prec = PRINTF_DEFAULT_FLOAT_PRECISION;
-    }
-    // limit precision to 9, cause a prec >= 10 can lead to overflow errors
-    while ((len < PRINTF_FTOA_BUFFER_SIZE) && (prec > maxprec)) {
-        buf[len++] = '0';
-        prec--;
-    }
-
-    whole = (int)value;
-    tmp = (value - whole) * pow10[prec];
-    frac = (unsigned long)tmp;
-    diff = tmp - frac;
-
-    if (diff > 0.5) {
-        ++frac;
-        // handle rollover, e.g. case 0.99 with prec 1 is 1.0
-        if (frac >= pow10[prec]) {
-            frac = 0;
-            ++whole;
-        }
-    } else if (diff < 0.5) {
-    } else if ((frac == 0U) || (frac & 1U)) {
-        // if halfway, round up if odd OR if last digit is 0
-        ++frac;
-    }
-
-    if (prec == 0U) {
-        diff = value - (double)whole;
-        if ((!(diff < 0.5) || (diff > 0.5)) && (whole & 1)) {
-            // exactly 0.5 and ODD, then round up
-            // 1.5 -> 2, but 2.5 -> 2
-            ++whole;
-        }
-    } else {
-        unsigned int count = prec;
-        // now do fractional part, as an unsigned number
-        while (len < PRINTF_FTOA_BUFFER_SIZE) {
-            --count;
-            buf[len++] = (char)(48U + (frac % 10U));
-            if (!(frac /= 10U)) {
-                break;
-            }
-        }
-        // add extra 0s
-        while ((len < PRINTF_FTOA_BUFFER_SIZE) && (count-- > 0U)) {
-            buf[len++] = '0';
-        }
-        if (len < PRINTF_FTOA_BUFFER_SIZE) {
-            // add decimal
-            buf[len++] = '.';
-        }
-    }
-
-    // do whole part, number is reversed
-    while (len < PRINTF_FTOA_BUFFER_SIZE) {
-        buf[len++] = (char)(48 + (whole % 10));
-        if (!(whole /= 10)) {
-            break;
-        }
-    }
-
-    // pad leading zeros
-    if (!(flags & FLAGS_LEFT) && (flags & FLAGS_ZEROPAD)) {
-        if (width && (negative || (flags & (FLAGS_PLUS | FLAGS_SPACE)))) {
-            width--;
-        }
-        while ((len < width) && (len < PRINTF_FTOA_BUFFER_SIZE)) {
-            buf[len++] = '0';
-        }
-    }
-
-    // strip leading zeros and dots
-    if ((flags & FLAGS_ADAPT_EXP) && !(flags & FLAGS_HASH)) {
-        size_t olen = len;
-        while (buf[off] == '0') {
-            off++;
-            len--;
-            if (off >= olen)
-                break;
-        }
-        if (buf[off] == '.' && off < olen) {
-            off++;
-            len--;
-        }
-    }
-
-    if (len < PRINTF_FTOA_BUFFER_SIZE) {
-        if (negative) {
-            buf[len++] = '-';
-        } else if (flags & FLAGS_PLUS) {
-            buf[len++] = '+'; // ignore the space if the '+' exists
-        } else if (flags & FLAGS_SPACE) {
-            buf[len++] = ' ';
-        }
-    }
-
-    return safec_out_rev(out, buffer, idx, maxlen, &buf[off], len, width,
-                         flags);
-}
-
-#ifdef PRINTF_SUPPORT_LONG_DOUBLE
-#ifdef HAVE_ISINFL
-#define _ISINFL(value) isinfl(value)
-#elif defined(__STDC_VERSION__) && __STDC_VERSION__ >= 199901L
-/* C99 and later */
-#define _ISINFL(value) isinf(value)
-#else
-#include <limits.h>
-/* Portable implementation for older standards */
-static inline int portable_isinfl(long double x) {
-/* Handle special case for non-finite values */
-#ifdef HUGE_VALL
-    if (x == HUGE_VALL || x == -HUGE_VALL) {
-        return 1;
-    }
-#endif
-
-/* IEEE 754 bit pattern checking */
-#if LDBL_MANT_DIG == 53 && LDBL_MAX_EXP == 1024
-    /* Same as double */
-    union {
-        long double ld;
-        unsigned long long bits;
-    } u = {x};
-
-    return ((u.bits & 0x7fffffffffffffffULL) == 0x7ff0000000000000ULL);
-#elif LDBL_MANT_DIG == 64 && LDBL_MAX_EXP == 16384
-    /* 80-bit extended precision */
-    union {
-        long double ld;
-        struct {
-            unsigned long long mantissa;
-            unsigned short exp_sign;
-        } bits;
-    } u = {x};
-
-    return ((u.bits.exp_sign & 0x7fff) == 0x7fff) &&
-           (u.bits.mantissa == 0x8000000000000000ULL);
-#elif LDBL_MANT_DIG == 113 && LDBL_MAX_EXP == 16384
-    /* 128-bit quad precision */
-    union {
-        long double ld;
-        struct {
-            unsigned long long hi;
-            unsigned long long lo;
-        } bits;
-    } u = {x};
-
-    return ((u.bits.hi & 0x7fff000000000000ULL) == 0x7fff000000000000ULL) &&
-           (u.bits.lo == 0) && ((u.bits.hi & 0x0000ffffffffffffULL) == 0);
-#else
-    /* Fallback comparison-based method */
-    if (x != x) {
-        return 0; /* NaN */
-    }
-    return (x + x == x) && (x != 0.0L);
-#endif
-}
-#define _ISINFL(value) portable_isinfl(value)
-#endif // HAVE_ISINFL
-
-// internal ftoa for fixed decimal long double
-static size_t safec_ftoa_long(out_fct_type out, const char *funcname,
-                              char *buffer, size_t idx, size_t maxlen,
-                              long double value, unsigned int prec,
-                              unsigned int width, unsigned int flags,
-                              const char *format) {
-    char buf[64];
-    char *p = (char *)buf;
-    int rc = 0;
-
-    if (value != value)
-        return safec_out_rev(out, buffer, idx, maxlen,
-                             (flags & FLAGS_UPPERCASE) ? "NAN" : "nan", 3,
-                             width, flags);
-    if (_ISINFL(value)) {
-        if (value < 0)
-            return safec_out_rev(out, buffer, idx, maxlen,
-                                 (flags & FLAGS_UPPERCASE) ? "FNI-" : "fni-", 4,
-                                 width, flags);
-        else
-            return safec_out_rev(out, buffer, idx, maxlen,
-                                 (flags & FLAGS_PLUS)
-                                     ? (flags & FLAGS_UPPERCASE) ? "FNI+"
-                                                                 : "fni+"
-                                 : (flags & FLAGS_UPPERCASE) ? "FNI"
-                                                             : "fni",
-                                 (flags & FLAGS_PLUS) ? 4 : 3, width, flags);
-    }
-    snprintf(buf, 64, format, value);
-    buf[63] = '\0';
-    while (*p != 0) {
-        rc = out(*(p++), buffer, idx++, maxlen);
-        if (unlikely(rc < 0))
-            return rc;
-    }
-    return idx;
-}
-
-// internal etoa for fixed decimal long double
-static inline size_t safec_etoa_long(out_fct_type out, const char *funcname,
-                                     char *buffer, size_t idx, size_t maxlen,
-                                     long double value, unsigned int prec,
-                                     unsigned int width, unsigned int flags,
-                                     const char *format) {
-    return safec_ftoa_long(out, funcname, buffer, idx, maxlen, value, prec,
-                           width, flags, format);
-}
-
-// internal atoa for fixed decimal long double
-static inline size_t safec_atoa_long(out_fct_type out, const char *funcname,
-                                     char *buffer, size_t idx, size_t maxlen,
-                                     long double value, unsigned int prec,
-                                     unsigned int width, unsigned int flags,
-                                     const char *format) {
-    return safec_ftoa_long(out, funcname, buffer, idx, maxlen, value, prec,
-                           width, flags, format);
-}
-#endif
-
-#ifdef PRINTF_SUPPORT_EXPONENTIAL
-// the complete same as safec_ftoa_long, but taking double, not long double
-static inline size_t safec_atoa(out_fct_type out, const char *funcname,
-                                char *buffer, size_t idx, size_t maxlen,
-                                double value, unsigned int prec,
-                                unsigned int width, unsigned int flags,
-                                const char *format) {
-    char buf[64];
-    char *p = (char *)buf;
-    int rc = 0;
-
-    if (value != value)
-        return safec_out_rev(out, buffer, idx, maxlen,
-                             (flags & FLAGS_UPPERCASE) ? "NAN" : "nan", 3,
-                             width, flags);
-    if (isinf(value)) {
-        if (value < 0)
-            return safec_out_rev(out, buffer, idx, maxlen,
-                                 (flags & FLAGS_UPPERCASE) ? "FNI-" : "fni-", 4,
-                                 width, flags);
-        else
-            return safec_out_rev(out, buffer, idx, maxlen,
-                                 (flags & FLAGS_PLUS)
-                                     ? (flags & FLAGS_UPPERCASE) ? "FNI+"
-                                                                 : "fni+"
-                                 : (flags & FLAGS_UPPERCASE) ? "FNI"
-                                                             : "fni",
-                                 (flags & FLAGS_PLUS) ? 4 : 3, width, flags);
-    }
-    snprintf(buf, 64, format, value);
-    buf[63] = '\0';
-    while (*p != 0) {
-        rc = out(*(p++), buffer, idx++, maxlen);
-        if (unlikely(rc < 0))
-            return rc;
-    }
-    return idx;
-}
-
-// internal ftoa variant for exponential floating-point type, contributed by
-// Martijn Jasperse <m.jasperse@gmail.com>
-static size_t safec_etoa(out_fct_type out, const char *funcname, char *buffer,
-                         size_t idx, size_t maxlen, double value,
-                         unsigned int prec, unsigned int width,
-                         unsigned int flags) {
-    union {
-        uint64_t U;
-        double F;
-    } conv;
-    int exp2, expval;
-    unsigned int minwidth, fwidth;
-    bool negative;
-
-    // check for NaN and special values
-    if ((value != value) || (!(flags & FLAGS_LONG_DOUBLE) &&
-                             ((value > DBL_MAX) || (value < -DBL_MAX)))) {
-        return safec_ftoa(out, funcname, buffer, idx, maxlen, value, prec,
-                          width, flags);
-    }
-
-    // determine the sign
-    negative = value < 0;
-    if (negative) {
+    // a NaN is printed without its sign bit
+    if (value != value && signbit(value))
         value = -value;
-    }
 
-    // default precision
-    if (!(flags & FLAGS_PRECISION)) {
-        prec = PRINTF_DEFAULT_FLOAT_PRECISION;
+    *p++ = '%';
+    if (flags & FLAGS_LEFT)
+        *p++ = '-';
+    if (flags & FLAGS_PLUS)
+        *p++ = '+';
+    if (flags & FLAGS_SPACE)
+        *p++ = ' ';
+    if (flags & FLAGS_HASH)
+        *p++ = '#';
+    if (flags & FLAGS_ZEROPAD)
+        *p++ = '0';
+    *p++ = '*';
+    if (flags & FLAGS_PRECISION) {
+        *p++ = '.';
+        *p++ = '*';
     }
+    if (is_long)
+        *p++ = 'L';
+    *p++ = conv;
+    *p = '\0';
 
-    // determine the decimal exponent
-    // based on the algorithm by David Gay
-    // (https://www.ampl.com/netlib/fp/dtoa.c)
-    conv.F = value;
-    exp2 = (int)((conv.U >> 52U) & 0x07FFU) - 1023; // effectively log2
-    conv.U = (conv.U & ((1ULL << 52U) - 1U)) |
-             (1023ULL << 52U); // drop the exponent so conv.F is now in [1,2)
-    // now approximate log10 from the log2 integer part and an expansion of ln
-    // around 1.5
-    expval = (int)(0.1760912590558 + exp2 * 0.301029995663981 +
-                   (conv.F - 1.5) * 0.289529654602168);
-    // now we want to compute 10^expval but we want to be sure it won't overflow
-    exp2 = (int)(expval * 3.321928094887362 + 0.5);
-    {
-        const double z = expval * 2.302585092994046 - exp2 * 0.6931471805599453;
-        const double z2 = z * z;
-        conv.U = (uint64_t)(exp2 + 1023) << 52U;
-        // compute exp(z) using continued fractions, see
-        // https://en.wikipedia.org/wiki/Exponential_function#Continued_fractions_for_ex
-        conv.F *= 1 + 2 * z / (2 - z + (z2 / (6 + (z2 / (10 + z2 / 14)))));
-        // correct for rounding errors
-        if (value < conv.F) {
-            expval--;
-            conv.F /= 10;
+#define SAFEC_FTOA_SNPRINTF(b, n)                                              \
+    ((flags & FLAGS_PRECISION)                                                 \
+         ? (is_long ? snprintf(b, n, fmt, (int)width, (int)prec, value)        \
+                    : snprintf(b, n, fmt, (int)width, (int)prec,               \
+                               (double)value))                                 \
+         : (is_long ? snprintf(b, n, fmt, (int)width, value)                   \
+                    : snprintf(b, n, fmt, (int)width, (double)value)))
+
+    len = SAFEC_FTOA_SNPRINTF(NULL, 0);
+    if (len >= (int)sizeof(stackbuf)) {
+        buf = (char *)malloc((size_t)len + 1);
+        if (unlikely(!buf)) {
+            char msg[80];
+            snprintf(msg, sizeof msg, "%s: malloc failed", funcname);
+            invoke_safe_str_constraint_handler(msg, buffer, ENOMEM);
+            return -(ENOMEM);
         }
     }
+    if (len >= 0)
+        len = SAFEC_FTOA_SNPRINTF(buf, (size_t)len + 1);
+#undef SAFEC_FTOA_SNPRINTF
+    if (unlikely(len < 0)) {
+        char msg[80];
+        snprintf(msg, sizeof msg, "%s: floating-point conversion failed",
+                 funcname);
+        invoke_safe_str_constraint_handler(msg, buffer, 1);
+        return -1;
+    }
 
-    // the exponent format is "%+03d" and largest value is "307", so set aside
-    // 4-5 characters
-    minwidth = ((expval < 100) && (expval > -100)) ? 4U : 5U;
-
-    // in "%g" mode, "prec" is the number of *significant figures* not decimals
-    if (flags & FLAGS_ADAPT_EXP) {
-        // do we want to fall-back to "%f" mode?
-        if ((flags & FLAGS_HASH) || ((value >= 1e-4) && (value < 1e6))) {
-            if ((int)prec > expval) {
-                prec = (unsigned)((int)prec - expval - 1);
-            } else {
-                prec = 0;
-            }
-            flags |= FLAGS_PRECISION; // make sure safec_ftoa respects precision
-            // no characters in exponent
-            minwidth = 0U;
-            expval = 0;
-        } else {
-            // we use one sigfig for the whole part
-            if ((prec > 0) && (flags & FLAGS_PRECISION)) {
-                --prec;
-            }
+    for (i = 0; i < len; i++) {
+        int rc = out(buf[i], buffer, idx++, maxlen);
+        if (unlikely(rc < 0)) {
+            if (buf != stackbuf)
+                free(buf);
+            return rc;
         }
     }
-
-    // will everything fit?
-    fwidth = width;
-    if (width > minwidth) {
-        // we didn't fall-back so subtract the characters required for the
-        // exponent
-        fwidth -= minwidth;
-    } else {
-        // not enough characters, so go back to default sizing
-        fwidth = 0U;
-    }
-    if ((flags & FLAGS_LEFT) && minwidth) {
-        // if we're padding on the right, DON'T pad the floating part
-        fwidth = 0U;
-    }
-
-    // rescale the float value
-    if (expval && conv.F != 0.0) {
-        value /= conv.F;
-    }
-
-    // output the floating part
-    {
-        const size_t start_idx = idx;
-        idx = safec_ftoa(out, funcname, buffer, idx, maxlen,
-                         negative ? -value : value, prec, fwidth, flags);
-        if ((long)idx < 0) // already reported
-            return idx;
-
-        // output the exponent part
-        if (minwidth) {
-            // output the exponential symbol
-            int rc = out((flags & FLAGS_UPPERCASE) ? 'E' : 'e', buffer, idx++,
-                         maxlen);
-            if (unlikely(rc < 0))
-                return rc;
-            // output the exponent value
-            idx =
-                safec_ntoa_long(out, funcname, buffer, idx, maxlen,
-                                (expval < 0) ? -expval : expval, expval < 0, 10,
-                                0, minwidth - 1, FLAGS_ZEROPAD | FLAGS_PLUS);
-            if ((long)idx < 0) // already reported
-                return idx;
-            // might need to right-pad spaces
-            if (flags & FLAGS_LEFT) {
-                while (idx - start_idx < width) {
-                    rc = out(' ', buffer, idx++, maxlen);
-                    if (unlikely(rc < 0))
-                        return rc;
-                }
-            }
-        }
-    }
+    if (buf != stackbuf)
+        free(buf);
     return idx;
 }
-#endif // PRINTF_SUPPORT_EXPONENTIAL
 #endif // PRINTF_SUPPORT_FLOAT
 
 // internal vsnprintf, extended for _s.
@@ -890,9 +457,6 @@ int safec_vsnprintf_s(out_fct_type out, const char *funcname, char *buffer,
     size_t idx = 0U;
     unsigned int flags, width, precision, n;
     int rc = 0;
-#ifdef PRINTF_SUPPORT_FLOAT
-    const char *startformat = NULL;
-#endif
 
     while (*format) {
         if ((long)idx < 0)
@@ -906,9 +470,6 @@ int safec_vsnprintf_s(out_fct_type out, const char *funcname, char *buffer,
             format++;
             continue;
         } else {
-#ifdef PRINTF_SUPPORT_FLOAT
-            startformat = (char *)format;
-#endif
             // yes, evaluate it
             format++;
         }
@@ -1133,138 +694,28 @@ int safec_vsnprintf_s(out_fct_type out, const char *funcname, char *buffer,
 #ifdef PRINTF_SUPPORT_FLOAT
         case 'f':
         case 'F':
-            if (*format == 'F')
-                flags |= FLAGS_UPPERCASE;
-            format++;
-#ifdef PRINTF_SUPPORT_LONG_DOUBLE
-            if (flags & FLAGS_LONG_DOUBLE) {
-                if (*format) {
-                    unsigned off = format - startformat;
-                    char *s = (char *)malloc(off + 1);
-                    if (unlikely(!s)) {
-                        char msg[80];
-                        snprintf(msg, sizeof msg, "%s: malloc failed",
-                                 funcname);
-                        invoke_safe_str_constraint_handler(msg, buffer,
-                                                           ENOMEM);
-                        return -(ENOMEM);
-                    }
-                    memcpy(s, startformat, off);
-                    s[off] = '\0';
-                    idx = safec_ftoa_long(out, funcname, buffer, idx, bufsize,
-                                          va_arg(va, long double), precision,
-                                          width, flags, s);
-                    free(s);
-                } else { // already at end
-                    idx = safec_ftoa_long(out, funcname, buffer, idx, bufsize,
-                                          va_arg(va, long double), precision,
-                                          width, flags, startformat);
-                }
-            } else
-#endif
-            {
-                idx = safec_ftoa(out, funcname, buffer, idx, bufsize,
-                                 va_arg(va, double), precision, width, flags);
-            }
-            break;
-#ifdef PRINTF_SUPPORT_EXPONENTIAL
         case 'e':
         case 'E':
         case 'g':
         case 'G':
-            if ((*format == 'g') || (*format == 'G'))
-                flags |= FLAGS_ADAPT_EXP;
-            if ((*format == 'E') || (*format == 'G'))
-                flags |= FLAGS_UPPERCASE;
-            format++;
-#ifdef PRINTF_SUPPORT_LONG_DOUBLE
-            if (flags & FLAGS_LONG_DOUBLE) {
-                if (*format) {
-                    unsigned off = format - startformat;
-                    char *s = (char *)malloc(off + 1);
-                    if (unlikely(!s)) {
-                        char msg[80];
-                        snprintf(msg, sizeof msg, "%s: malloc failed",
-                                 funcname);
-                        invoke_safe_str_constraint_handler(msg, buffer,
-                                                           ENOMEM);
-                        return -(ENOMEM);
-                    }
-                    memcpy(s, startformat, off);
-                    s[off] = '\0';
-                    idx = safec_etoa_long(out, funcname, buffer, idx, bufsize,
-                                          va_arg(va, long double), precision,
-                                          width, flags, s);
-                    free(s);
-                } else {
-                    idx = safec_etoa_long(out, funcname, buffer, idx, bufsize,
-                                          va_arg(va, long double), precision,
-                                          width, flags, startformat);
-                }
-            } else
-#endif
-            {
-                idx = safec_etoa(out, funcname, buffer, idx, bufsize,
-                                 va_arg(va, double), precision, width, flags);
-            }
-            break;
         case 'a':
-        case 'A':
-            if (*format == 'A')
-                flags |= FLAGS_UPPERCASE;
+        case 'A': {
+            const char conv = *format;
             format++;
 #ifdef PRINTF_SUPPORT_LONG_DOUBLE
             if (flags & FLAGS_LONG_DOUBLE) {
-                if (*format) {
-                    unsigned off = format - startformat;
-                    char *s = (char *)malloc(off + 1);
-                    if (unlikely(!s)) {
-                        char msg[80];
-                        snprintf(msg, sizeof msg, "%s: malloc failed",
-                                 funcname);
-                        invoke_safe_str_constraint_handler(msg, buffer,
-                                                           ENOMEM);
-                        return -(ENOMEM);
-                    }
-                    memcpy(s, startformat, off);
-                    s[off] = '\0';
-                    idx = safec_atoa_long(out, funcname, buffer, idx, bufsize,
-                                          va_arg(va, long double), precision,
-                                          width, flags, s);
-                    free(s);
-                } else {
-                    idx = safec_atoa_long(out, funcname, buffer, idx, bufsize,
-                                          va_arg(va, long double), precision,
-                                          width, flags, startformat);
-                }
+                idx = safec_ftoa_libc(out, funcname, buffer, idx, bufsize,
+                                      va_arg(va, long double), true, conv,
+                                      precision, width, flags);
             } else
 #endif
             {
-                if (*format) {
-                    unsigned off = format - startformat;
-                    char *s = (char *)malloc(off + 1);
-                    if (unlikely(!s)) {
-                        char msg[80];
-                        snprintf(msg, sizeof msg, "%s: malloc failed",
-                                 funcname);
-                        invoke_safe_str_constraint_handler(msg, buffer,
-                                                           ENOMEM);
-                        return -(ENOMEM);
-                    }
-                    memcpy(s, startformat, off);
-                    s[off] = '\0';
-                    idx = safec_atoa(out, funcname, buffer, idx, bufsize,
-                                     va_arg(va, double), precision, width,
-                                     flags, s);
-                    free(s);
-                } else {
-                    idx = safec_atoa(out, funcname, buffer, idx, bufsize,
-                                     va_arg(va, double), precision, width,
-                                     flags, startformat);
-                }
+                idx = safec_ftoa_libc(out, funcname, buffer, idx, bufsize,
+                                      (long double)va_arg(va, double), false,
+                                      conv, precision, width, flags);
             }
             break;
-#endif // PRINTF_SUPPORT_EXPONENTIAL
+        }
 #endif // PRINTF_SUPPORT_FLOAT
         case 'c': {
             unsigned int l = 1U;
